@@ -462,11 +462,15 @@ func vRunHistory(t *testing.T, h int, next func(step int, st map[string]interfac
 			}
 		}
 		// C03: D0 and every restored copy see the same entry
+		preSess := map[uint64]bool{}
+		for _, x := range d0.srv.VerifProject()["ss"].([]interface{}) {
+			preSess[uint64(x.(map[string]interface{})["id"].(int64))] = true
+		}
 		dm, dp := d0.apply(e)
 		if dp != "" {
 			rec.Snap, rec.SnapAt = "direct replica panicked: "+dp, -1
 		} else {
-			dwant := vCanon(d0.srv)
+			dwant := d0.srv.VerifCanonLive()
 			if d := vSameOut(msgs, dm); d != "" && rec.Det == "" {
 				rec.Det = "direct-path replica: " + d
 			}
@@ -475,8 +479,8 @@ func vRunHistory(t *testing.T, h int, next func(step int, st map[string]interfac
 				var d string
 				if xp != "" {
 					d = "restored replica panicked: " + xp
-				} else if d = vSameOutLive(dm, xm, d0.srv); d == "" && (idx+1-x.at)%stateEvery == 0 {
-					d = vStateDiff(dwant, vCanon(x.r.srv))
+				} else if d = vSameOutLive(dm, xm, d0.srv, preSess); d == "" && (idx+1-x.at)%stateEvery == 0 {
+					d = vStateDiff(dwant, x.r.srv.VerifCanonLive())
 				}
 				if d != "" && rec.Snap == "" {
 					rec.Snap, rec.SnapAt = d, x.at
@@ -490,7 +494,7 @@ func vRunHistory(t *testing.T, h int, next func(step int, st map[string]interfac
 					if _, err := ns.Unmarshal(b); err != nil {
 						rec.Snap, rec.SnapAt = "Unmarshal: "+err.Error(), idx+1
 					} else {
-						if d := vStateDiff(dwant, vCanon(ns)); d != "" && rec.Snap == "" {
+						if d := vStateDiff(dwant, ns.VerifCanonLive()); d != "" && rec.Snap == "" {
 							rec.Snap, rec.SnapAt = "right after load: "+d, idx+1
 						}
 						rs = append(rs, restored{&vReplica{srv: ns, direct: true}, idx + 1})
@@ -507,8 +511,20 @@ func vRunHistory(t *testing.T, h int, next func(step int, st map[string]interfac
 }
 
 // vSameOutLive compares outputs restricted to recipients that are sessions of the reference server.
-func vSameOutLive(a, b []outputstream.Message, ref *ircserver.IRCServer) string {
-	return vSameOut(a, b)
+func vSameOutLive(a, b []outputstream.Message, ref *ircserver.IRCServer, pre map[uint64]bool) string {
+	f := func(in []outputstream.Message) []outputstream.Message {
+		out := make([]outputstream.Message, len(in))
+		for k, m := range in {
+			out[k] = outputstream.Message{Id: m.Id, Data: m.Data, InterestingFor: map[uint64]bool{}}
+			for id, v := range m.InterestingFor {
+				if v && (pre[id] || ref.VerifIsSession(id)) {
+					out[k].InterestingFor[id] = true
+				}
+			}
+		}
+		return out
+	}
+	return vSameOut(f(a), f(b))
 }
 
 func vFirstDiff(a, b string) string {
@@ -600,5 +616,5 @@ func TestVerifIRC(t *testing.T) {
 		h++
 		vRunHistory(t, h, vGenHistory(rng, length), k, snapEvery, tmp, w)
 	}
-	fmt.Printf("VERIF-IRC histories=%d\n", h)
+	json.NewEncoder(w).Encode(&vRecord{K: "end", H: h, Post: map[string]interface{}{}, Out: []vReply{}, Lookup: [][]interface{}{}})
 }
